@@ -88,6 +88,16 @@ BeginStruct(b, isUnion) ==
   LET b1 == [b EXCEPT !.stStk = <<[union |-> isUnion, savePC |-> Load(b), maxLen |-> 0]>> \o @,
                       !.stSaveSeg = IF b.act # StructSeg THEN b.act ELSE @]
   IN [b1 EXCEPT !.act = StructSeg, !.pc[StructSeg] = 0, !.ph[StructSeg] = 0]
+\* value of a field label (and of a nested structure's own name) inside structure bodies: offset inside the
+\* innermost body plus the offsets at which the enclosing bodies were interrupted (all saved counters except the
+\* outermost one, which is the counter of the ordinary segment): fields of nested structures and the members of
+\* a union inside a structure are numbered relative to the OUTERMOST structure.
+StructBase(b) ==
+  LET S[i \in 0..Len(b.stStk)] == IF i = 0 THEN 0
+                                   ELSE IF i = Len(b.stStk) THEN S[i-1] ELSE S[i-1] + b.stStk[i].savePC
+  IN S[Len(b.stStk)]
+FieldValue(b) == Load(b) + StructBase(b)
+
 \* total length of the innermost open structure: counter for a STRUCT, maximum member size for a UNION
 StructLen(b) == IF b.stStk[1].union THEN b.stStk[1].maxLen ELSE b.pc[StructSeg]
 \* ENDSTRUCT: back to the outer structure's offset plus the size of the finished one (it is a member of the
